@@ -777,7 +777,7 @@ _UID = [0]
 
 
 def _uid(name):
-    """A file id never used before in this process (the model's new_id() restarts from the entry count after a resync, so it
+    """A file id never used before in this case (the model's new_id() restarts from the entry count after a resync, so it
     can hand out an id that an earlier revision has at another path)."""
     _UID[0] += 1
     return "s%d-%s" % (_UID[0], "".join(ch for ch in name if ch.isalnum())[:8])
@@ -1204,6 +1204,7 @@ def case(ctx):
 
     rng = ctx.rng
     git = ctx.index % 3 == 2
+    _UID[0] = 0  # (ids are unique per case and the same on replay)
     try:
         p, revs, merged, log = _build(ctx, rng, git)
     except (KeyboardInterrupt, SystemExit):
